@@ -74,6 +74,64 @@ CHECKS = {
             'immutability; findRcrit residuals for bracketed roots; all ShapeFactor setter/query histories to closure against fresh objects.',
             'Quadrature tolerance 1e-8; continuity tolerance 1e-6 as the statement requires.',
             '2/C15'),
+    'C02': ('model_checking',
+            'per-step trajectory monitoring of full configuration products on the real PrecipitateModel (shared with C01)',
+            'On every accepted step of every run of the C01 products: reported density / mean radius / volume fraction equal M0, M1/M0 '
+            'and the scaled M3 of the distribution the row was computed from (1e-12); the PSD recorded for that step (looked up by its '
+            'time stamp) sums to the reported density up to the documented removal of classes holding < 1 particle and nothing else '
+            '(a class that went negative and was reset is reported); the density never rises by more than nucleation rate x step '
+            '(for RK4 the largest stage rate), including steps on which the grid is extended or re-meshed.',
+            'Same harness and assumptions as C01; volume factors are an independent transcription of Clemm-Fisher.',
+            '2/C02'),
+    'C09': ('model_checking',
+            'explicit-state exploration of query histories on one long-lived thermodynamics object against fresh-object answers; BFS over HashTable operations',
+            'All histories of length <= 3 (quick) / <= 4 (thorough) over 14-16 query symbols per database (four driving-force methods, '
+            'interfacial composition, curvature/growth/impingement, inter- and tracer diffusivity with scalar/1-point/3-point arguments, '
+            'removeCache on/off, clearCache) on Al-Zr, Cu-Ti, Ni-Cr-Al and Al-Mg-Si: the last answer must equal the answer of a fresh '
+            'object (1e-8 rel; 1e-6 sampling), repeats are bit-identical, array == point-wise, argument arrays untouched. HashTable: BFS '
+            'over add/get/enable/clear/setSensitivity on lattice points straddling rounding boundaries against an exact-integer-key model; '
+            'SinglePhaseModel fluxes with cache on/off.',
+            'Points are chosen where equilibria converge (listed in the evidence); the documented history dependence of curvatureFactor '
+            'in the failing-equilibrium path is not asserted; tolerances derive from pycalphad\'s convergence criterion.',
+            '2/C09'),
+    'C10': ('exploration',
+            'full composition-temperature lattice over the stable matrix region of every shipped system against finite differences of equilibrium chemical potentials',
+            'At every lattice point of 11 system configurations (Ni-Cr, Ni-Al, Ni-Cr-Al in three element orders, Fe-Cr-Ni FCC/BCC, Al-Zr, '
+            'Al-Mg-Si, Cu-Ti): dMudX vs 2nd-order central differences of getLocalEq potentials (1e-4), symmetry, positive definiteness, '
+            'real positive eigenvalues of D, D vs an independent sum over mobility callables, tracer = R T M > 0, Darken relation for '
+            'binaries, zero column sums of the mobility matrix, element-order equivariance; spinodal points excluded and counted.',
+            'pycalphad\'s equilibria and mobility callables are trusted; lattice resolution 6-12 points per axis x 4 temperatures.',
+            '2/C10'),
+    'C14': ('exploration',
+            'exhaustive lattices against an independent geometric reference; BFS over parameter-setter histories; per-step trajectory clause',
+            'Clemm-Fisher factors of the three grain-boundary site types compared over a k lattice with bodies integrated by Gauss-Legendre '
+            'quadrature (not with the closed forms), identity a - 2k b = 3c, k=0 limits, monotone volume factor, behaviour at/above the '
+            'limit ratio; full product of driving forces x times x sites x k x gamma x Vm x T x Rmin x D x beta function through the real '
+            'nucleation functions (finite, non-negative, zero for dG <= 0, incubation in [0,1] and rising, steady-state rate monotone in dG); '
+            'available sites vs occupation on a real model; all setter histories to depth 3/4 against fresh objects; recorded nucleation '
+            'rate zero whenever the recorded driving force is non-positive on every step of jump/ramp runs.',
+            'k lattice stops at kmax(1-1e-6); quadrature reference used up to 0.999 kmax.',
+            '2/C14'),
+    'C16': ('exploration',
+            'full product against an independent Mura-integral reference and closed forms; all setter permutations; every monomial of each quadrature rule',
+            'Energy >= 0, cubic size and quadratic eigenstrain scaling, 6x6 vs fourth-rank, both 3x3 inverses, homogeneous-inclusion limit, '
+            'closed forms and all 81 textbook Eshelby components for isotropic matrix + sphere, and an independent reference (Mura integral, '
+            'equivalent inclusion in Mandel notation) for every other configuration of the product stiffness x rotation x semi-axes x precipitate '
+            'stiffness x quadrature order x eigenstrain x scale; every order (4!,5!,6!) of the setters against a canonical order; every monomial '
+            'up to the stated order of the three sphere rules (522k monomials); rank and modulus conversion round trips.',
+            'KNOWN FINDING: the shipped Lebedev expansion is inexact (recorded, cannot be repaired without changing pinned test values); so that it '
+            'does not mask the other clauses, those stages bind ElasticFactors.loadPoints to the shipped tables under a corrected orbit expansion. '
+            'Orders in which the shape is chosen before the matrix stiffness are outside the documented use.',
+            '2/C16'),
+    'C17': ('exploration',
+            'exhaustive synthetic lattices with exact rational references; by-name post-processing product; evaluation histories against fresh tables',
+            'The five averaging rules on every column of a log lattice of mobilities (incl. undefined entries) x simplex lattice of fractions x '
+            'all phase orders x labyrinth factors against exact Fraction arithmetic (bounds, ordering W- <= HS- <= HS+ <= W+, single-phase '
+            'identity, lab(1)=W+); post-processing modes on every ordered stable subset against a by-name reference, table unchanged afterwards; '
+            'every (point, mode) history of length <= 3 on one shared table on Fe-Cr-Ni and Ni-Cr-Al equals the fresh-table value.',
+            'Bound/ordering clauses only for fully defined columns (as the code documents for undefined entries); ill-conditioned HS columns '
+            '(contrast >= 1e15) counted, not asserted.',
+            '2/C17'),
 }
 
 NOT_YET = {}
